@@ -188,6 +188,11 @@ def finish(unit, ex, solver, ob, t0, extra=None, cross=True):
     if cross:
         agree, detail, dt = solver.cross_check(cap_s=int(os.environ.get("VERIF_CVC5_CAP", "900" if os.environ.get("VERIF_TIER_RUNNING") != "thorough" else "5400")))
         unit["cross_check"] = "cvc5: %s (%.1fs)" % (detail, dt)
+        if agree:
+            try:
+                os.remove(solver.logpath)  # the query log of an agreeing run is not kept (they are large); it stays on a disagreement / error
+            except OSError:
+                pass
         if agree is not True:
             unit["status"] = "inconclusive"
             unit["why"] = (unit.get("why", "") + " solver cross-check failed: " + detail).strip()
